@@ -62,8 +62,15 @@ func scenario(p params, bounds []int) *vexp.Scenario {
 			gc := &vsys.Script{Name: "gc"}
 			c := &vsys.Script{Name: "c", Children: []*vsys.Script{gc}}
 			t := &vsys.Script{Name: "t"}
-			if p.state == "killing-slow" {
+			if p.state == "killing-slow" || p.state == "stopping-paused" {
 				t.Children = []*vsys.Script{c}
+			}
+			released := false
+			if p.state == "stopping-paused" {
+				// the child's OnKill is held, so that t stays in its stopping phase until the driver releases it
+				c.OnKill = func(a *vsys.Act, ctx vivid.ActorContext, m *vivid.OnKill) {
+					vrt.Block(vrt.KYield, 0, "held OnKill of /p/t/c", func() bool { return released })
+				}
 			}
 			stashed := 0
 			t.OnMsg = func(a *vsys.Act, ctx vivid.ActorContext, m vsys.Msg) {
@@ -79,7 +86,15 @@ func scenario(p params, bounds []int) *vexp.Scenario {
 				t.Restarted = func(*vsys.Act) error { return errors.New("scripted restart failure") }
 			}
 			par := &vsys.Script{Name: "p"}
-			par.Strategy = w.Decider("/p", false, dec)
+			par.Strategy = w.Decider("/p", p.state == "stopping-paused", dec)
+			if p.state == "stopping-paused" {
+				// a sibling whose failure makes the one-for-all supervisor pause and stop all its children
+				par.Children = append(par.Children, &vsys.Script{Name: "s", OnMsg: func(a *vsys.Act, ctx vivid.ActorContext, m vsys.Msg) {
+					if m.ID == "boom" {
+						panic("scripted sibling failure")
+					}
+				}})
+			}
 			spawnT := func(a *vsys.Act, ctx vivid.ActorContext) {
 				r, err := a.SpawnChild(ctx, t)
 				if err != nil {
@@ -169,6 +184,12 @@ func scenario(p params, bounds []int) *vexp.Scenario {
 			case "sys-stopped":
 				w.Sys.Stop()
 				vrt.QuiesceNoTimers()
+			case "stopping-paused":
+				// t is stopping (waiting for its held child) when its supervisor pauses and stops all children
+				w.Sys.Kill(killRef, false, "driver")
+				vrt.QuiesceNoTimers()
+				w.Sys.Tell(w.Ref("/p/s"), vsys.Msg{ID: "boom"})
+				vrt.QuiesceNoTimers()
 			}
 			pubsBefore := len(w.Pubs)
 			entriesBefore := len(w.Entries)
@@ -187,6 +208,8 @@ func scenario(p params, bounds []int) *vexp.Scenario {
 			}
 			vrt.Go("sender", doSends)
 			switch p.state {
+			case "stopping-paused":
+				released = true // the sends race the end of t's stopping phase
 			case "kill-now", "killing-slow":
 				w.Sys.Kill(killRef, false, "driver")
 			case "kill-poison":
@@ -291,7 +314,7 @@ func build(tier string) []*vexp.Scenario {
 		bounds = []int{0, 1, 2}
 	}
 	var out []*vexp.Scenario
-	states := []string{"running", "kill-now", "kill-poison", "killing-slow", "fail-stop", "fail-gstop", "fail-restart", "fail-grestart", "fail-resume", "killed", "reused", "zombie", "sys-stopped", "stash"}
+	states := []string{"stopping-paused", "running", "kill-now", "kill-poison", "killing-slow", "fail-stop", "fail-gstop", "fail-restart", "fail-grestart", "fail-resume", "killed", "reused", "zombie", "sys-stopped", "stash"}
 	provs := []string{"actorof-warm", "actorof-cold", "clone", "parse", "find"}
 	for _, st := range states {
 		for _, pv := range provs {
